@@ -39,7 +39,7 @@ func (in *Interp) checkTable(a []Value, i int, fname string) *Table {
 
 // checkInt follows luaL_checkinteger: numbers and numeric strings, truncated toward zero like a C cast.
 func (in *Interp) checkNum(a []Value, i int, fname string) float64 {
-	v := arg(a, i)
+	v := deline(arg(a, i))
 	if s, ok := v.(string); ok {
 		f, st := StrToNum(s)
 		if st == numGrey {
@@ -78,7 +78,7 @@ func (in *Interp) optInt(a []Value, i int, fname string, def int) int {
 }
 
 func (in *Interp) checkStr(a []Value, i int, fname string) string {
-	switch x := arg(a, i).(type) {
+	switch x := deline(arg(a, i)).(type) {
 	case string:
 		return x
 	case float64:
@@ -95,6 +95,7 @@ func (in *Interp) checkStr(a []Value, i int, fname string) string {
 }
 
 func (in *Interp) tostring(v Value) Value {
+	v = deline(v)
 	if h := in.metaField(v, "__tostring"); h != nil {
 		if _, isStr := v.(string); !isStr {
 			if _, isO := v.(*OStr); !isO {
@@ -126,6 +127,10 @@ func openBase(in *Interp) {
 	G := in.G
 	in.reg(G, "emit", func(in *Interp, a []Value) []Value {
 		in.Trace = append(in.Trace, TraceEvent{"emit", append([]Value(nil), a...)})
+		return nil
+	})
+	in.reg(G, "emitline", func(in *Interp, a []Value) []Value {
+		in.Trace = append(in.Trace, TraceEvent{"line", append([]Value(nil), a...)})
 		return nil
 	})
 	in.reg(G, "type", func(in *Interp, a []Value) []Value {
@@ -468,6 +473,7 @@ func openBase(in *Interp) {
 	openMath(in)
 	openCoroutine(in)
 	openHost(in)
+	openDebug(in)
 }
 
 func (in *Interp) tailBelow(level int) bool {
